@@ -691,7 +691,9 @@ func (c *client) handleControl(packet *protocol.Packet) {
 		return
 	}
 
-	if packet.IsAuth() || packet.IsReconnect() {
+	// only a response answers the auth / reconnect request: a request or
+	// push frame with these commands must not be handed to a waiting call
+	if (packet.IsAuth() || packet.IsReconnect()) && packet.Metadata.Type == protocol.ResponsePacket {
 		c.handleResponse(packet)
 	}
 }
